@@ -1,4 +1,5 @@
 import SkgVerif.Model.Basic
+import SkgVerif.Model.Kriging
 /-!
 # Jackknife cross-validation (`util/cross_validation.py`)
 -/
@@ -22,5 +23,31 @@ def maeScore (devs : List (Option Rat)) : Option Rat :=
 /-- the pre-repair code: `np.nansum(|dev|) / len(dev)` (D3) -/
 def maeScoreDefect (devs : List (Option Rat)) : Option Rat :=
   if devs.isEmpty then none else some (sumR ((somes devs).map absR) / (devs.length : Rat))
+
+/-! ## leave-one-out prediction through the kriging model
+
+`D` = distances between the observations (n × n), `Gm` = fitted semivariances between them,
+`v` = observed values.  Holding out `i` deletes row and column `i` of both tables and entry `i`
+of the values (`np.delete` in `_interpolate`), the target is the held-out location. -/
+
+/-- index in the full data set of the `a`-th remaining observation -/
+def skipIdx (i a : Nat) : Nat := if a < i then a else a + 1
+
+def looPredict (maxDist : Rat) (minP maxP : Nat) (D Gm : List (List Rat)) (v : List Rat)
+    (i : Nat) : Outcome :=
+  krigeOne maxDist minP maxP (fun a b => (Gm.getD (skipIdx i a) []).getD (skipIdx i b) 0)
+    (deleteAt v i) (deleteAt (D.getD i []) i, deleteAt (Gm.getD i []) i)
+
+/-- deviation prediction − observation; `none` when the point cannot be estimated -/
+def looDev (maxDist : Rat) (minP maxP : Nat) (D Gm : List (List Rat)) (v : List Rat)
+    (i : Nat) : Option Rat :=
+  match looPredict maxDist minP maxP D Gm v i with
+  | .ok z _ => some (z - v.getD i 0)
+  | _ => none
+
+/-- `jacknife`: deviations of the selected points, in the order of the selection -/
+def jackknife (maxDist : Rat) (minP maxP : Nat) (D Gm : List (List Rat)) (v : List Rat)
+    (sel : List Nat) : List (Option Rat) :=
+  sel.map (looDev maxDist minP maxP D Gm v)
 
 end Skg
